@@ -1,11 +1,27 @@
 """C18 - buffered writes are flushed once they are about ten seconds old."""
+S = "aw_datastore.storages.sqlite.SqliteStorage."
 PROP = dict(
     id="C18",
     level="other",
-    contract_modules=["contracts.models"],
-    spec_modules=["contracts.models"],
-    functions=[],
+    contract_modules=["contracts.models", "contracts.sqlite"],
+    spec_modules=["contracts.sqlite"],
+    functions=[dict(fn=S + "commit", rt_skip=True),
+               dict(fn=S + "conditional_commit", rt_skip=True),
+               dict(fn=S + "delete", rt_skip=True),
+               dict(fn=S + "replace", rt_skip=True),
+               dict(fn=S + "replace_last", rt_skip=True),
+               dict(fn=S + "insert_one", rt_skip=True),
+               dict(fn=S + "insert_many", rt_skip=True)],
+    timeout_s=20,
     extra=[lambda run: run.storage_mode("c18", what="slow trickle of writes under a controlled clock on the lazily committing sqlite store", backends=["sqlite"])],
-    technique="run-time check of the real back ends (bounded); contract-based proof of the sqlite methods is layered on top where built",
-    explanation="bounded: with the module clock of the sqlite storage replaced by a controlled one, random trickles of single-event writes with inter-arrival gaps between 1 and 30 s are issued; a write issued more than 10 s after the previous flush must be visible to a second connection when it returns.",
+    technique="run-time check of the real back ends (bounded); with the sqlite methods proved against contracts over the table state (SQL text parsed from the source)",
+    explanation="deductive (sqlite): conditional_commit, and through it every event write method, guarantees: if the lazy store's previous flush is more than ten seconds old when the method is entered (clock reading minus last_commit), no statement is pending when it returns. " 
+                "bounded: with the module clock of the sqlite storage replaced by a controlled one, random trickles of single-event writes with inter-arrival gaps between 1 and 30 s are issued; a write issued more than 10 s after the previous flush must be visible to a second connection when it returns.",
 )
+
+F = "/repo/aw_datastore/storages/sqlite.py"
+MUTANTS = [
+    (F, '            if (datetime.now() - self.last_commit) > timedelta(seconds=10):', '            if (datetime.now() - self.last_commit) > timedelta(seconds=100):', True),   # age threshold 100 s
+    (F, '            if self.num_uncommitted_statements > 50:\n                self.commit()\n            if (datetime.now()', '            if self.num_uncommitted_statements > 50:\n                self.commit()\n            elif (datetime.now()', False),   # elif is equivalent: after a commit the age test is moot
+    (F, '        self.conn.commit()\n        self.last_commit = datetime.now()\n        self.num_uncommitted_statements = 0', '        self.last_commit = datetime.now()\n        self.num_uncommitted_statements = 0', True),   # commit does not commit
+]
